@@ -205,6 +205,10 @@ func (g *Gen) genCompLine(p *ProgDef) (string, []string) {
 		}
 	case r < 45 && len(vis) > 0:
 		o := vis[g.r.Intn(len(vis))]
+		// prefer an option that has values to offer
+		for try := 0; try < 4 && len(o.Suggested)+len(o.Valid) == 0 && o.SuggestFn == 0; try++ {
+			o = vis[g.r.Intn(len(vis))]
+		}
 		ks := optKeys(o)
 		k := ks[g.r.Intn(len(ks))]
 		vals := append(append([]string{}, o.Valid...), o.Suggested...)
@@ -283,6 +287,7 @@ func cmdComplete(argv []string) {
 	coqOut := fs.String("coq", "", "Coq output (vm_compute route)")
 	coqN := fs.Int("coqn", 10, "number of cases in the Coq output")
 	obsOut := fs.String("obs", "obs.jsonl", "observation output")
+	repeat := fs.Int("repeat", 0, "C20: complete every case this many times (fresh definition each time) and compare the output")
 	fs.Parse(argv)
 	g := NewGen(*seed)
 	applyProfile(g, *profile)
@@ -301,10 +306,19 @@ func cmdComplete(argv []string) {
 			prog = genProgFor(g, *profile)
 		}
 		line, args := g.genCompLine(prog)
-		obs := runComplete(prog, line, g.pct(40), args)
+		zsh := g.pct(40)
+		obs := runComplete(prog, line, zsh, args)
 		if obs.BuildErr != "" {
 			prog = nil
 			continue
+		}
+		for k := 1; k < *repeat && obs.Panic == "" && !obs.Hang; k++ {
+			again := runComplete(prog, line, zsh, args)
+			if again.Stdout != obs.Stdout || again.Stderr != obs.Stderr || again.Panic != obs.Panic {
+				obs.Oracle["C20"] = append(obs.Oracle["C20"], OracleHit{Key: "completion-nondeterministic",
+					What: fmt.Sprintf("run %d of the same completion differs: first stdout=%q stderr=%q, again stdout=%q stderr=%q", k+1, obs.Stdout, obs.Stderr, again.Stdout, again.Stderr)})
+				break
+			}
 		}
 		if obs.Panic != "" || obs.Hang || obs.term == nil {
 			enc.Encode(obs)
